@@ -180,3 +180,34 @@ Theorem checkpoint_skeleton_agrees :
   /\ Gen.Skeleton.skel_execCheckpoint = Db.Skeleton.expected_execCheckpoint.
 Proof. split; reflexivity. Qed.
 Print Assumptions checkpoint_skeleton_agrees.
+
+(** * The read phase of a snapshot against a WAL that can be restarted under it (Db/SnapRead.v)
+
+    Between building the page map and reading the pages any sequence of writer steps may happen
+    (litestream's read mark 0 does not stop a restart).  The header comparison of /repo commit 482a715 is
+    sufficient for every such sequence; comparing only the LAST frame of the range is not (seed C02f;
+    the scripts snapshot-during-restart are this witness on the real code). *)
+From LS Require Db.SnapRead.
+
+Theorem snapshot_header_recheck_sound : forall (data : Type) (ss : list (SnapRead.wstep data)) (w : SnapRead.wal data) (n : nat),
+  SnapRead.wf data w -> (n <= SnapRead.live data w)%nat ->
+  SnapRead.hdr data (SnapRead.run data w ss) = SnapRead.hdr data w ->
+  firstn n (SnapRead.slots data (SnapRead.run data w ss)) = firstn n (SnapRead.slots data w) /\
+  (n <= SnapRead.live data (SnapRead.run data w ss))%nat.
+Proof. exact SnapRead.header_recheck_sound_lemma. Qed.
+Print Assumptions snapshot_header_recheck_sound.
+
+Theorem snapshot_last_frame_recheck_refuted :
+  exists (w : SnapRead.wal nat) (ss : list (SnapRead.wstep nat)) (n : nat),
+    SnapRead.wf nat w /\ (n <= SnapRead.live nat w)%nat /\
+    SnapRead.last_frame_check nat w (SnapRead.run nat w ss) n = true /\
+    firstn n (SnapRead.slots nat (SnapRead.run nat w ss)) <> firstn n (SnapRead.slots nat w).
+Proof. exact SnapRead.last_frame_recheck_refuted_lemma. Qed.
+Print Assumptions snapshot_last_frame_recheck_refuted.
+
+(** the read phase as regenerated from db.go on every run (reading guide in Db/Skeleton.v) *)
+From LS Require Gen.Skeleton Db.Skeleton.
+Theorem snapshot_reader_skeleton_agrees :
+  Gen.Skeleton.skel_snapshotReader = Db.Skeleton.expected_snapshotReader.
+Proof. reflexivity. Qed.
+Print Assumptions snapshot_reader_skeleton_agrees.
